@@ -103,12 +103,20 @@ def bfSetup (s : SpecSt) (path : Path) : Except Exc (SpecSt × List Path) :=
   else match dirsToMake (visible s) s.cacheFile s.inProg path.dropLast with
     | .error e => .error (.os e)
     | .ok ds =>
-      if s.failFiles.contains path then .error (.os .other) else .ok (setupState s path ds, ds)
+      if s.failFiles.contains path then .error (.os .other)
+      -- `os.mkdir` of a directory whose name is too long fails (ENAMETOOLONG)
+      else if ds.any Path.tooLong then .error (.os .other)
+      else .ok (setupState s path ds, ds)
 
 def pendingFind (pending : List (Path × String × Nat)) (p : Path) : Option (String × Nat) :=
   match pending.find? (fun x => x.1 = p) with
   | some (_, b, m) => some (b, m)
   | none => none
+
+/-- "didn't create that file" — except that `stat` of a target whose name is too long fails with
+    ENAMETOOLONG first, and that OSError is what surfaces -/
+def notCreatedExc (path : Path) : Exc :=
+  if Path.tooLong path then .os .other else .runtime .notCreated
 
 /-- what happens when the function of `build_file path` has returned `r` -/
 def bfFinish (s : SpecSt) (path : Path) (made : List Path) (r : CallRes) : CallRes × SpecSt :=
@@ -124,7 +132,7 @@ def bfFinish (s : SpecSt) (path : Path) (made : List Path) (r : CallRes) : CallR
     | some (b, m) =>
       (.ok j, { s with fs := s.fs.set path (.file b m), outputs := path :: s.outputs,
                        createdDirs := made ++ s.createdDirs })
-    | none => fail (.runtime .notCreated)
+    | none => fail (notCreatedExc path)
 
 /-- the state after the setup of `build_file path` failed with `e`: an injected fault fires only once,
     and building below a target whose function is running is noted as a broken obligation -/
